@@ -1,7 +1,7 @@
 /-
 Spike: Bit Machine (bit-cell level) vs. denotational semantics for the core combinators.
 -/
-namespace BM2
+namespace BM3
 
 inductive Ty | one | sum (a b : Ty) | prod (a b : Ty)
 deriving DecidableEq, Repr
@@ -33,6 +33,26 @@ theorem Enc.length {t v bs} (h : Enc t v bs) : bs.length = t.bw := by
   | inr _ hp ih => simp [Ty.bw, ih, hp, padR]; omega
   | pair _ _ ih1 ih2 => simp [Ty.bw, ih1, ih2]
 
+inductive HasTy : Val → Ty → Prop
+  | unit : HasTy .unit .one
+  | inl {v a b} : HasTy v a → HasTy (.inl v) (.sum a b)
+  | inr {v a b} : HasTy v b → HasTy (.inr v) (.sum a b)
+  | pair {x y a b} : HasTy x a → HasTy y b → HasTy (.pair x y) (.prod a b)
+
+/-- padded encoding with zero padding (`Value::iter_padded` of a constructed value) -/
+def padded : Ty → Val → List Bool
+  | .sum a b, .inl v => false :: (List.replicate (padL a b) false ++ padded a v)
+  | .sum a b, .inr v => true :: (List.replicate (padR a b) false ++ padded b v)
+  | .prod a b, .pair x y => padded a x ++ padded b y
+  | _, _ => []
+
+theorem enc_padded {t v} (h : HasTy v t) : Enc t v (padded t v) := by
+  induction h with
+  | unit => exact .unit
+  | inl _ ih => exact .inl ih (by simp)
+  | inr _ ih => exact .inr ih (by simp)
+  | pair _ _ ih1 ih2 => exact .pair ih1 ih2
+
 inductive Term : Ty → Ty → Type
   | iden {a} : Term a a
   | unit {a} : Term a .one
@@ -44,6 +64,14 @@ inductive Term : Ty → Ty → Type
   | case {a b c d} : Term (.prod a c) d → Term (.prod b c) d → Term (.prod (.sum a b) c) d
   | pair {a b c} : Term a b → Term a c → Term a (.prod b c)
   | fail {a b} : Term a b
+  | witness {a b} (v : Val) : Term a b          -- also models constant words
+  | assertl {a b c d} : Term (.prod a c) d → Term (.prod (.sum a b) c) d
+  | assertr {a b c d} : Term (.prod b c) d → Term (.prod (.sum a b) c) d
+  /-- a jet: `jf` is the C function on bit buffers, `f` its specification on values -/
+  | jet {a b} (jf : List Bool → Option (List Bool)) (f : Val → Option Val) : Term a b
+  | word {a b} (v : Val) : Term a b             -- constant word: like witness, but `extra_cells = 0`
+  /-- `disconnect s t`; `w` is `2^256` and `cw` the CMR of `t` as a value in the real code -/
+  | disconnect {a b c d} (w : Ty) (cw : Val) : Term (.prod w a) (.prod b c) → Term c d → Term a (.prod b d)
 
 def eval : {a b : Ty} → Term a b → Val → Option Val
   | _, _, .iden, v => some v
@@ -60,6 +88,43 @@ def eval : {a b : Ty} → Term a b → Val → Option Val
   | _, _, .case _ _, _ => none
   | _, _, .pair s t, v => (eval s v).bind fun x => (eval t v).map fun y => .pair x y
   | _, _, .fail, _ => none
+  | _, _, .witness w, _ => some w
+  | _, _, .assertl s, .pair (.inl x) z => eval s (.pair x z)
+  | _, _, .assertl _, _ => none
+  | _, _, .assertr t, .pair (.inr y) z => eval t (.pair y z)
+  | _, _, .assertr _, _ => none
+  | _, _, .word w, _ => some w
+  | _, _, .jet _ f, v => f v
+  | _, _, .disconnect _ cw s t, v =>
+      (eval s (.pair cw v)).bind fun
+        | .pair x y => (eval t y).map fun z => .pair x z
+        | _ => none
+
+/-- the C jet computes its specification on every padded encoding of every input (trusted: C library) -/
+def JetOK (a b : Ty) (jf : List Bool → Option (List Bool)) (f : Val → Option Val) : Prop :=
+  ∀ v bits, Enc a v bits →
+    match f v with
+    | some o => ∃ out, jf bits = some out ∧ Enc b o out
+    | none => jf bits = none
+
+/-- every witness value has the target type of its node (the invariant of redemption programs, C12) -/
+def WT : {a b : Ty} → Term a b → Prop
+  | _, _, .iden => True
+  | _, _, .unit => True
+  | _, _, .injl t => WT t
+  | _, _, .injr t => WT t
+  | _, _, .take t => WT t
+  | _, _, .drop t => WT t
+  | _, _, .comp s t => WT s ∧ WT t
+  | _, _, .case s t => WT s ∧ WT t
+  | _, _, .pair s t => WT s ∧ WT t
+  | _, _, .fail => True
+  | _, b, .witness w => HasTy w b
+  | _, _, .assertl s => WT s
+  | _, _, .assertr t => WT t
+  | _, b, .word w => HasTy w b
+  | a, b, .jet jf f => JetOK a b jf f
+  | _, _, .disconnect w cw s t => HasTy cw w ∧ WT s ∧ WT t
 
 structure Frame where
   cursor : Nat
@@ -87,6 +152,11 @@ def writeBit (b : Bool) (m : M) : Except Err M :=
     if w.cursor < m.cap then
       .ok { m with cells := upd m.cells w.cursor b, write := { w with cursor := w.cursor + 1 } :: ws }
     else .error .crash
+
+/-- `write_value`: the bits of the padded encoding, one `write_bit` each -/
+def writeBits : List Bool → M → Except Err M
+  | [], m => .ok m
+  | b :: bs, m => do let m ← writeBit b m; writeBits bs m
 
 def skip (n : Nat) (m : M) : Except Err M :=
   if n = 0 then .ok m else
@@ -141,6 +211,12 @@ def peek (m : M) : Except Err Bool :=
   | [] => .error .crash
   | r :: _ => .ok (m.cells r.cursor)
 
+def slice (cells : Nat → Bool) (c : Nat) : Nat → List Bool
+  | 0 => []
+  | n+1 => cells c :: slice cells (c+1) n
+
+def rcur (m : M) : Nat := match m.read with | [] => 0 | r :: _ => r.cursor
+
 /-- the interpreter, as structural recursion (the Rust call stack is its defunctionalisation) -/
 def run : {a b : Ty} → Term a b → M → Except Err M
   | a, _, .iden, m => copy a.bw m
@@ -178,6 +254,41 @@ def run : {a b : Ty} → Term a b → M → Except Err M
       let m ← run s m
       run t m
   | _, _, .fail, _ => .error .fail
+  | _, b, .witness w, m => writeBits (padded b w) m
+  | _, _, @Term.assertl a b _ _ s, m => do
+      let bit ← peek m
+      if bit then .error .fail     -- ReachedPrunedBranch
+      else do
+        let m ← fwd (1 + padL a b) m
+        let m ← run s m
+        back (1 + padL a b) m
+  | _, _, @Term.assertr a b _ _ t, m => do
+      let bit ← peek m
+      if bit then do
+        let m ← fwd (1 + padR a b) m
+        let m ← run t m
+        back (1 + padR a b) m
+      else .error .fail
+  | _, b, .word w, m => writeBits (padded b w) m
+  | a, _, .jet jf _, m =>
+      -- `exec_jet`: read `a.bw` bits (and `back`), call the jet, write its output bit by bit
+      if a.bw ≠ 0 ∧ m.read = [] then .error .crash else
+      match jf (slice m.cells (rcur m) a.bw) with
+      | none => .error .fail
+      | some out => writeBits out m
+  | _, _, @Term.disconnect a b c _ w cw s t, m => do
+      let m ← newWrite (w.bw + a.bw) m
+      let m ← writeBits (padded w cw) m
+      let m ← copy a.bw m
+      let m ← moveWriteToRead m
+      let m ← newWrite (b.bw + c.bw) m
+      let m ← run s m
+      let m ← moveWriteToRead m
+      let m ← copy b.bw m          -- CopyFwd(size_b)
+      let m ← fwd b.bw m
+      let m ← run t m
+      let m ← dropRead m
+      dropRead m
 
 
 /-- `NodeBounds::extra_cells` -/
@@ -192,6 +303,13 @@ def extraCells : {a b : Ty} → Term a b → Nat
   | _, _, .case s t => max (extraCells s) (extraCells t)
   | _, _, .pair s t => max (extraCells s) (extraCells t)
   | _, _, .fail => 0
+  | _, b, .witness _ => b.bw     -- `NodeBounds::witness` (an over-approximation: nothing is allocated)
+  | _, _, .assertl s => extraCells s
+  | _, _, .assertr t => extraCells t
+  | _, _, .word _ => 0
+  | _, _, .jet _ _ => 0
+  | _, _, @Term.disconnect a b c _ w _ s t =>
+      (w.bw + a.bw) + (b.bw + c.bw) + max (extraCells s) (extraCells t)
 
 /-- `NodeBounds::extra_frames` -/
 def extraFrames : {a b : Ty} → Term a b → Nat
@@ -205,12 +323,15 @@ def extraFrames : {a b : Ty} → Term a b → Nat
   | _, _, .case s t => max (extraFrames s) (extraFrames t)
   | _, _, .pair s t => max (extraFrames s) (extraFrames t)
   | _, _, .fail => 0
+  | _, _, .witness _ => 0
+  | _, _, .assertl s => extraFrames s
+  | _, _, .assertr t => extraFrames t
+  | _, _, .word _ => 0
+  | _, _, .jet _ _ => 0
+  | _, _, .disconnect _ _ s t => 2 + max (extraFrames s) (extraFrames t)
 
 /-! ### specification -/
 
-def slice (cells : Nat → Bool) (c : Nat) : Nat → List Bool
-  | 0 => []
-  | n+1 => cells c :: slice cells (c+1) n
 
 @[simp] theorem slice_length (cells c n) : (slice cells c n).length = n := by
   induction n generalizing c with
@@ -247,7 +368,6 @@ theorem slice_split {cells : Nat → Bool} {c n k : Nat} {bx by' : List Bool}
   have := List.append_inj h (by simp [hl])
   exact ⟨this.1.symm, this.2.symm⟩
 
-def rcur (m : M) : Nat := match m.read with | [] => 0 | r :: _ => r.cursor
 def wcur (m : M) : Nat := match m.write with | [] => 0 | w :: _ => w.cursor
 
 def advW (n : Nat) : List Frame → List Frame
@@ -309,4 +429,4 @@ theorem copyCells_spec (cells : Nat → Bool) (src dst n : Nat)
       have := hd (i+1) (j+1) (by omega) (by omega)
       omega
 
-end BM2
+end BM3
